@@ -247,4 +247,26 @@ theorem gen_system_wrappers :
       [("scale", "self.box.position_cartesian_to_relative(value)"),
        ("unscale", "self.box.position_relative_to_cartesian(value)")] := by decide
 
+/-- the seven crystal-family constructors, regenerated (own guards in order, keywords handed to `cls(...)`) = the model's
+    `Ctor.params?`. -/
+theorem gen_family_ctors_eq_model (a b c al be ga : K) :
+    Generated.BoxSource.cubicSrc a = (Ctor.cubic a).params? ∧
+    Generated.BoxSource.hexagonalSrc a c = (Ctor.hexagonal a c).params? ∧
+    Generated.BoxSource.tetragonalSrc a c = (Ctor.tetragonal a c).params? ∧
+    Generated.BoxSource.trigonalSrc a al = (Ctor.trigonal a al).params? ∧
+    Generated.BoxSource.orthorhombicSrc a b c = (Ctor.orthorhombic a b c).params? ∧
+    Generated.BoxSource.monoclinicSrc a b c be = (Ctor.monoclinic a b c be).params? ∧
+    Generated.BoxSource.triclinicSrc a b c al be ga = (Ctor.triclinic a b c al be ga).params? := by
+  refine ⟨rfl, ?_, ?_, ?_, ?_, ?_, ?_⟩ <;>
+    simp only [Generated.BoxSource.hexagonalSrc, Generated.BoxSource.tetragonalSrc, Generated.BoxSource.trigonalSrc,
+      Generated.BoxSource.orthorhombicSrc, Generated.BoxSource.monoclinicSrc, Generated.BoxSource.triclinicSrc,
+      Ctor.params?, Bool.or_eq_true, decide_eq_true_eq]
+
+/-- `avect bvect cvect` are rows 0, 1, 2; `Plane(normal, point)` keeps the order of its arguments; `Box(**kwargs)` hands
+    every keyword set except `model` to `set(**kwargs)`. -/
+theorem gen_glue_pins :
+    Generated.BoxSource.vectGetters = [("avect", 0), ("bvect", 1), ("cvect", 2)] ∧
+    Generated.BoxSource.planeInitNormalThenPoint = true ∧ Generated.BoxSource.initHandsKeywordsToSet = true :=
+  ⟨by decide, rfl, rfl⟩
+
 end Atomman.C01
